@@ -22,6 +22,13 @@ const KEYWORDS: &[&str] = &[
 /// Lean names of the translated functions: a Rust variable of the same name is renamed (`iter` -> `iter_v`)
 pub static RESERVED: std::sync::Mutex<Vec<String>> = std::sync::Mutex::new(Vec::new());
 
+/// single-field tuple structs that only steer rustc's choice of an impl (`CmpWrapper<T>(pub T)`,
+/// `__ElemDispatch<T>(pub T)`, …): a value of such a type is read as its field; the impls are told apart by the
+/// type argument (index.rs: SPECIALISED)
+pub fn is_transparent_newtype(n: &str) -> bool {
+    matches!(n, "CmpWrapper" | "__ElemDispatch" | "__MakeSepArg" | "__NormalizeConcatArg")
+}
+
 pub fn lean_ident(s: &str) -> String {
     let s = s.trim_start_matches("r#");
     if RESERVED.lock().unwrap().iter().any(|r| r == s) {
@@ -313,6 +320,10 @@ struct ArmSpec<'a> {
 }
 
 pub struct Tr<'a> {
+    /// `let x: T;` variables that have not been assigned yet
+    deferred: std::collections::HashSet<String>,
+    /// per enclosing block: the names mentioned by the statements that follow the one being translated
+    live_after: Vec<std::collections::HashSet<String>>,
     idx: &'a Index,
     reg: &'a Registry,
     cur: &'a FnEntry,
@@ -439,7 +450,7 @@ impl<'a> Tr<'a> {
                     "Ordering" => Ty::Ordering,
                     "Option" if targs.len() == 1 => Ty::Option(Box::new(self.conv_ty(targs[0]))),
                     "Result" if targs.len() == 2 => Ty::Result(Box::new(self.conv_ty(targs[0])), Box::new(self.conv_ty(targs[1]))),
-                    "CmpWrapper" if targs.len() == 1 => Ty::Adt("CmpWrapper".into(), vec![self.conv_ty(targs[0])]),
+                    n if is_transparent_newtype(n) && targs.len() == 1 => Ty::Adt(n.to_string(), vec![self.conv_ty(targs[0])]),
                     "Self" if self.cur.self_syn.is_some() => {
                         let t = self.cur.self_syn.clone().unwrap();
                         self.conv_ty(&t)
@@ -587,7 +598,7 @@ impl<'a> Tr<'a> {
             Ty::Option(e) => format!("(Option {})", self.lean_ty(e)?),
             Ty::Result(a, b) => format!("(Except {} {})", self.lean_ty(b)?, self.lean_ty(a)?),
             // `CmpWrapper<T>(pub T)` is read as its field; the marker value of the coercion idiom as `()`
-            Ty::Adt(n, targs) if n == "CmpWrapper" && targs.len() == 1 => self.lean_ty(&targs[0])?,
+            Ty::Adt(n, targs) if is_transparent_newtype(n) && targs.len() == 1 => self.lean_ty(&targs[0])?,
             Ty::Adt(n, _) if n == "IsAConstCmp" => "Unit".into(),
             Ty::Adt(n, targs) => {
                 let lean = self.reg.structs.get(n).or_else(|| self.reg.enums.get(n)).cloned().ok_or_else(|| format!("type `{}` is not a translation target", n))?;
@@ -642,7 +653,7 @@ impl<'a> Tr<'a> {
     /// the Rust type as text, with structs / enums under their Lean names (for signatures.json)
     pub fn ty_sig(&self, t: &Ty) -> String {
         match self.sub.resolve(t) {
-            Ty::Adt(n, a) if n == "CmpWrapper" && a.len() == 1 => self.ty_sig(&a[0]),
+            Ty::Adt(n, a) if is_transparent_newtype(&n) && a.len() == 1 => self.ty_sig(&a[0]),
             Ty::Adt(n, _) => self.reg.structs.get(&n).or_else(|| self.reg.enums.get(&n)).cloned().unwrap_or(n),
             Ty::Slice(e) => format!("[{}]", self.ty_sig(&e)),
             Ty::Option(e) => format!("Option<{}>", self.ty_sig(&e)),
